@@ -240,10 +240,10 @@ PROPS["C08"] = dict(
 
 PROPS["C05"] = dict(
     level="proof",
-    claim="Partial, small extents, every element value: (E1 c05_slice) for an axis of extent N = 1..3 (thorough: 4) EVERY combination of start and stop in {None, -N-2 .. N+2} with step in {absent, None, 1, 2, 3, -1, -2, -3} (tuple form with typed parts) gives view::slice exactly the length of Python's slice.indices rule and element k = source element start' + k*step, on arrays of constant shape and - extent 3 - on arrays whose shape is a run-time value; the same for the all-integer index-array forms {start,stop,step} / {start,stop} and for the run-time list handed to apply_slice (array of index arrays: length and elements; list of either-typed parts: lengths only), so the compile-time and run-time encodings agree with the one oracle and hence with each other. Since slice.indices clamps, |start|,|stop| > N behave like N+1, which is enumerated: for these extents the enumeration is exhaustive in start and stop. (E1 c05b_forms) integers drop their axis and negative ones count from the end, an ellipsis stands for the unnamed axes (alone, leading, trailing, between integers / ranges, standing for no axis), several sliced axes are independent, an empty range gives an empty axis, a slice of a slice composes. Extents above 4, |step| > 3 and heap-backed shapes are not decided.",
+    claim="Partial, small extents, every element value: (E1 c05_slice) for an axis of extent N = 1..3 (thorough: 4) EVERY combination of start and stop in {None, -N-2 .. N+2} with step in {absent, None, 1, 2, 3, -1, -2, -3} (tuple form with typed parts) gives view::slice exactly the length of Python's slice.indices rule and element k = source element start' + k*step, on arrays of constant shape and - extent 3 - on arrays whose shape is a run-time value; the same for the all-integer index-array forms {start,stop,step} / {start,stop} and for the run-time list handed to apply_slice (array of index arrays: length and elements; list of either-typed parts: lengths only), so the compile-time and run-time encodings agree with the one oracle and hence with each other. Since slice.indices clamps, |start|,|stop| > N behave like N+1, which is enumerated: for these extents the enumeration is exhaustive in start and stop. (E1 c05b_forms) integers drop their axis and negative ones count from the end, an ellipsis stands for the unnamed axes (alone, leading, trailing, between integers / ranges, standing for no axis), several sliced axes are independent, an empty range gives an empty axis, a slice of a slice composes. Extents above 4, |step| > 3 and heap-backed shapes are not decided. (c05c_lengths, index level, SYMBOLIC extent) for every extent n below 2^40: a[:] has n elements and a[::k] / a[::-k] have ceil(n/k) for k = 1, 2, 3.",
     note=E1_NOTE + " The oracle is Python's documented slice.indices algorithm written as a constexpr function of four integers in the driver. Decided after the repair `fix: slice ranges follow Python's start/stop normalisation` (the unchanged upstream code deviated from Python for most negative / out-of-range / empty combinations, see DESIGN 8.8).",
     technique=E1_TECH + " (exhaustive enumeration of the slice parameters over small extents, element values symbolic)",
-    e1=[dict(tu="c05_slice.cpp", flags=["-DC05_N=1"]), dict(tu="c05_slice.cpp", flags=["-DC05_N=2"]), dict(tu="c05_slice.cpp", flags=["-DC05_N=3"]),
+    e1=[dict(tu="c05c_lengths.cpp"), dict(tu="c05_slice.cpp", flags=["-DC05_N=1"]), dict(tu="c05_slice.cpp", flags=["-DC05_N=2"]), dict(tu="c05_slice.cpp", flags=["-DC05_N=3"]),
         dict(tu="c05_slice.cpp", flags=["-DC05_N=3", "-DVERIF_RT_KIND"]),
         dict(tu="c05_slice.cpp", flags=["-DC05_N=2", "-DC05_FIRST=8", "-DC05_LAST=21"]),
         dict(tu="c05_slice.cpp", flags=["-DC05_N=2", "-DC05_FIRST=8", "-DC05_LAST=21", "-DVERIF_RT_KIND"]),
